@@ -22,7 +22,12 @@ namespace etl {
 #else
     auto const* l = static_cast<unsigned char const*>(lhs);
     auto const* r = static_cast<unsigned char const*>(rhs);
-    return etl::detail::strncmp<unsigned char, etl::size_t>(l, r, count);
+    for (; count != 0; --count, ++l, ++r) {
+        if (*l != *r) {
+            return *l < *r ? -1 : 1;
+        }
+    }
+    return 0;
 #endif
 }
 
